@@ -160,3 +160,7 @@ inst!(c05_bs_n8_m4_multi, 11, backward_search::<8, 4, true>());
 inst!(c05_bs_n6_m3_acg, 9, backward_search_over::<6, 3, false>(b"ACG"));
 inst!(c05_bs_n7_m2_acgt_multi, 10, backward_search_over::<7, 2, true>(b"ACGT"));
 inst!(c05_bs_n10_m4, 13, backward_search::<10, 4, false>());
+inst!(c05_bs_n12_m4, 15, backward_search::<12, 4, false>());
+inst!(c05_bs_n12_m5_multi, 15, backward_search::<12, 5, true>());
+inst!(c05_bs_n9_m3_acgt, 12, backward_search_over::<9, 3, false>(b"ACGT"));
+inst!(c05_bs_n14_m3, 17, backward_search::<14, 3, false>());
